@@ -141,3 +141,18 @@ def warmup(dec, dm_obj, dm_case, spec):
                 other.evaluate(dm_obj)
             except Exception:
                 pass
+
+
+def narrow_int_variant(rng, dm):
+    """the same kind of problem stored in a NARROW integer dtype (int8 / int16 / int32 / uint8 / uint16: sensor counts, grades) with
+    whole-number weights: every weighted sum / product overflows the storage dtype, so arithmetic carried out in it wraps"""
+    dt, hi = rng.choice([("int8", 120), ("int16", 450), ("int32", 60000), ("uint8", 250), ("uint16", 60000)])
+    lo = max(1, hi // 3)
+    m, n = len(dm["matrix"]), len(dm["objectives"])
+    rows = [[float(rng.randint(lo, hi)) for _ in range(n)] for _ in range(m)]
+    for i in range(1, m):  # keep the duplicated / dominated structure of the original rows where there was one
+        if dm["matrix"][i] == dm["matrix"][0]:
+            rows[i] = list(rows[0])
+    dm = dict(dm, matrix=rows, int_matrix=True, dtype=dt, family="dyadic")
+    dm["weights"] = [float(rng.randint(2, 40 if hi < 1000 else 70000)) for _ in range(n)]
+    return dm
